@@ -16,9 +16,9 @@ using namespace sim;
 namespace {
 
 struct DOp { unsigned kind; uint64_t seed; };
-enum { D_FLIP, D_BYTE, D_SECTOR_ZERO, D_SECTOR_GARBAGE, D_SECTOR_DUP, D_TRUNC, D_UINT_EDGE, D_RETYPE, D_NAME, D_DEEP, D_HUGELEN, D_HUGECOUNT, D_ALL_GARBAGE, D_LEN_FIELD, D_TIME_FIELDS, D_NKINDS };
+enum { D_FLIP, D_BYTE, D_SECTOR_ZERO, D_SECTOR_GARBAGE, D_SECTOR_DUP, D_TRUNC, D_UINT_EDGE, D_RETYPE, D_NAME, D_DEEP, D_HUGELEN, D_HUGECOUNT, D_ALL_GARBAGE, D_LEN_FIELD, D_TIME_FIELDS, D_INDEX_AT_SIZE, D_NKINDS };
 const char* DN[] = {"bit-flip", "byte-overwrite", "sector-zeroed", "sector-garbage", "sector-duplicated", "truncation", "numeric-member-boundary", "major-type-changed",
-                    "hostile-name", "deep-nesting-under-unknown-key", "huge-string-length", "huge-container-count", "all-sectors-garbage", "length-field-overwritten", "time-fields-at-boundaries"};
+                    "hostile-name", "deep-nesting-under-unknown-key", "huge-string-length", "huge-container-count", "all-sectors-garbage", "length-field-overwritten", "time-fields-at-boundaries", "index-at-table-size"};
 
 void collect(ref::Node& n, std::vector<ref::Node*>& out) {
     out.push_back(&n);
@@ -131,6 +131,62 @@ std::string apply(const std::string& in, const DOp& op, std::string& note) {
             f = ref::encode_preferred(root);
             break;
         }
+        case D_INDEX_AT_SIZE: {
+            // off-by-one bounds: an index member is set to exactly the size of what it indexes (or size+1, size-1): the block's
+            // block-parameters index against the preamble's array, item members against the block's tables
+            if (!parse() || root.kids.size() != 3) break;
+            auto member = [](ref::Node& m, uint64_t key) -> ref::Node* {
+                if (!m.is_map()) return nullptr;
+                for (size_t i = 0; i + 1 < m.kids.size(); i += 2) if (m.kids[i].is_uint() && m.kids[i].arg == key) return &m.kids[i + 1];
+                return nullptr;
+            };
+            size_t nsets = 0;
+            if (ref::Node* bps = member(root.kids[1], 3)) nsets = bps->kids.size();
+            if (root.kids[2].kids.empty()) break;
+            ref::Node& blk = root.kids[2].kids[r.below(root.kids[2].kids.size())];
+            size_t tsize[9] = {0, 0, 0, 0, 0, 0, 0, 0, 0};
+            ref::Node* tables = member(blk, 2);
+            if (tables) for (uint64_t t = 0; t < 9; t++) if (ref::Node* tab = member(*tables, t)) tsize[t] = tab->kids.size();
+            struct Cand { ref::Node* n; size_t size; const char* what; };
+            std::vector<Cand> cand;
+            if (ref::Node* pre = member(blk, 0)) {
+                if (ref::Node* idx = member(*pre, 1)) cand.push_back({idx, nsets, "block-parameters-index"});
+                else if (pre->is_map() && pre->kids.size() / 2 < 23 && r.coin()) {   // the optional index is absent: add it
+                    pre->kids.push_back(ref::Node::uint_(1)); pre->kids.push_back(ref::Node::uint_(0));
+                    cand.push_back({&pre->kids.back(), nsets, "block-parameters-index(added)"});
+                }
+            }
+            if (ref::Node* qrs = member(blk, 3)) for (auto& q : qrs->kids) {
+                if (ref::Node* x = member(q, 1)) cand.push_back({x, tsize[0], "qr client-address-index"});
+                if (ref::Node* x = member(q, 4)) cand.push_back({x, tsize[3], "qr signature-index"});
+                if (ref::Node* x = member(q, 7)) cand.push_back({x, tsize[2], "qr query-name-index"});
+                for (uint64_t ek : {10, 11}) if (ref::Node* e = member(q, ek)) {
+                    if (ref::Node* x = member(*e, 0)) cand.push_back({x, tsize[4], "question-list index"});
+                    for (uint64_t k = 1; k <= 3; k++) if (ref::Node* x = member(*e, k)) cand.push_back({x, tsize[6], "rr-list index"});
+                }
+            }
+            if (ref::Node* aecs = member(blk, 4)) for (auto& a : aecs->kids) if (ref::Node* x = member(a, 2)) cand.push_back({x, tsize[0], "aec address-index"});
+            if (ref::Node* mms = member(blk, 5)) for (auto& m : mms->kids) {
+                if (ref::Node* x = member(m, 1)) cand.push_back({x, tsize[0], "mm client-address-index"});
+                if (ref::Node* x = member(m, 3)) cand.push_back({x, tsize[8], "mm message-data-index"});
+            }
+            if (tables) {
+                if (ref::Node* sigs = member(*tables, 3)) for (auto& e : sigs->kids) { if (ref::Node* x = member(e, 0)) cand.push_back({x, tsize[0], "signature server-address-index"}); if (ref::Node* x = member(e, 9)) cand.push_back({x, tsize[1], "signature classtype-index"}); }
+                if (ref::Node* ql = member(*tables, 4)) for (auto& l : ql->kids) for (auto& x : l.kids) cand.push_back({&x, tsize[5], "question index in a list"});
+                if (ref::Node* qs = member(*tables, 5)) for (auto& e : qs->kids) { if (ref::Node* x = member(e, 0)) cand.push_back({x, tsize[2], "question name-index"}); if (ref::Node* x = member(e, 1)) cand.push_back({x, tsize[1], "question classtype-index"}); }
+                if (ref::Node* rl = member(*tables, 6)) for (auto& l : rl->kids) for (auto& x : l.kids) cand.push_back({&x, tsize[7], "rr index in a list"});
+                if (ref::Node* rs = member(*tables, 7)) for (auto& e : rs->kids) { if (ref::Node* x = member(e, 0)) cand.push_back({x, tsize[2], "rr name-index"}); if (ref::Node* x = member(e, 3)) cand.push_back({x, tsize[2], "rr rdata-index"}); }
+            }
+            if (cand.empty()) break;
+            // the block-parameters index is one candidate among many: give it every third pick
+            Cand c = (r.chance(1, 3) && cand[0].what[0] == 'b') ? cand[0] : cand[r.below(cand.size())];
+            if (c.n->major > 1) break;
+            c.n->major = 0;
+            c.n->arg = r.chance(2, 3) ? c.size : (r.coin() ? c.size + 1 : (c.size ? c.size - 1 : 0));
+            note = std::string(c.what) + " = " + std::to_string(c.n->arg) + " (size " + std::to_string(c.size) + ")";
+            f = ref::encode_preferred(root);
+            break;
+        }
         case D_LEN_FIELD: {
             // overwrite the argument bytes of a multi-byte head in place (lengths, counts, integers alike)
             if (!parse()) break;
@@ -175,9 +231,11 @@ std::string apply(const std::string& in, const DOp& op, std::string& note) {
             } else if (op.kind == D_HUGELEN) {
                 uint64_t len = r.pick(std::vector<uint64_t>{0xffffffffffffffffULL, 0x8000000000000000ULL, 0x100000000ULL, 0xffffffffULL, 0x40000000ULL, 0x4000000ULL});
                 uint8_t major = r.coin() ? 2 : 3;
+                bool chunked = r.chance(1, 3);   // the huge length sits in the head of a chunk of an indefinite-length string
+                if (chunked) member += (char)(major << 5 | 31);
                 ref::put_head(member, major, len, 27);
                 member += "abc";
-                note = "string head with length " + std::to_string(len) + " in map@" + std::to_string(off);
+                note = std::string(chunked ? "chunk" : "string") + " head with length " + std::to_string(len) + " in map@" + std::to_string(off);
             } else {
                 uint64_t cnt = r.pick(std::vector<uint64_t>{0xffffffffffffffffULL, 0x100000000ULL, 0xffffffffULL, 0x1000000ULL});
                 ref::put_head(member, r.coin() ? 4 : 5, cnt, 27);
